@@ -6,7 +6,7 @@ CONSTANTS
   MaxOffers = 2
   MaxMut = 100
   ReallocNodes <- MCReallocNodes
-  ReallocTypes <- MCReallocTypes
+  ReallocTypes <- SimReallocTypes
   a = a
   b = b
   c = c
